@@ -239,6 +239,14 @@ class Gen:
         n = rng.choice([0, 0, 1, 1, 2, 3, 4])
         shape = rng.random()
         labels_here = [f"pt{eid}_a", f"pt{eid}_b"]
+        # temporary labels (assembler-private prefix): the module symbol gets
+        # a per-patch suffix
+        temp = {}
+        if isa != "ia32":
+            for j, nm in enumerate(list(labels_here)):
+                if rng.random() < 0.35:
+                    labels_here[j] = ".L" + nm
+                    temp[".L" + nm] = True
         if shape < 0.15:
             # forward skip over a label
             lines.append({"k": "jne", "t": labels_here[0]})
@@ -247,7 +255,11 @@ class Gen:
             own.append(labels_here[0])
         elif shape < 0.25:
             # backward loop
-            lines.append({"l": labels_here[0]})
+            if rng.random() < 0.4:
+                # ... whose head is the very first instruction of the patch
+                lines.insert(0, {"l": labels_here[0]})
+            else:
+                lines.append({"l": labels_here[0]})
             own.append(labels_here[0])
             lines.append({"k": rng.choice(ORD_KEYS)})
             lines.append({"k": "jne", "t": labels_here[0]})
@@ -289,7 +301,13 @@ class Gen:
             lines.append({"k": term_key(isa, "halt", rng, orig=False)})
         elif end < 0.32:
             nm = f"pt{eid}_z"
+            if isa != "ia32" and rng.random() < 0.3:
+                nm = ".L" + nm
+                temp[nm] = True
             lines.append({"l": nm})
+        for ln in lines:
+            if ln.get("l") in temp:
+                ln["temp"] = True
         return {"lines": lines}
 
     def mark(self, eid):
@@ -368,6 +386,10 @@ class Gen:
                     p = {"lines": [{"k": "bytes",
                                     "hex": rng.randbytes(
                                         rng.randrange(1, 5)).hex()}]}
+                    if case["isa"] != "ia32" and rng.random() < 0.5:
+                        p["lines"].insert(
+                            rng.choice([0, 1]),
+                            {"l": f".Lpt{eid}_d", "temp": True})
                 e = {"op": op, "b": b["id"], "i": i, "p": p}
                 if op == "rep":
                     e["n"] = cnt
